@@ -167,6 +167,35 @@ def aggregates(res):
             v = cur.fetchall()[0][0]
             if not conforms(v, dt) or (dt is bool and type(v) is not bool):
                 res.violation(f'h04:agg-dtype:{fn}:{t.__name__}', 'aggregate values are instances of the announced datatype', {'query': q}, f'{type(v).__name__}: {v!r}', dt.__name__)
+    # coalesce over every ordered pair of column types: rejected, or every value conforms to the announced datatype
+    for (c1, t1), (c2, t2) in itertools.product(cols, repeat=2):
+        q = f'SELECT coalesce({c1}, {c2}), coalesce({c1}, {c2}, {c1}) FROM #t'
+        res.case(q)
+        try:
+            cur = conn.execute(q)
+            rows2 = cur.fetchall()
+        except beanquery.ProgrammingError:
+            continue
+        except Exception as e:
+            res.violation(f'h04:coalesce-error:{t1.__name__},{t2.__name__}', 'accepted coalesce executes', {'query': q}, f'{type(e).__name__}: {e}', None)
+            continue
+        for j, d in enumerate(cur.description):
+            bad = [r[j] for r in rows2 if not conforms(r[j], d.datatype) or (d.datatype is bool and r[j] is not None and type(r[j]) is not bool)]
+            if bad:
+                res.violation(f'h04:coalesce-dtype:{t1.__name__},{t2.__name__}', 'coalesce announces a datatype every value conforms to', {'query': q}, f'{type(bad[0]).__name__}: {bad[0]!r}', d.datatype.__name__)
+    lc = ledger.connect()
+    for q in ["SELECT coalesce(payee, entry.meta['ref']) FROM #postings", "SELECT coalesce(narration, meta['memo']), coalesce(cost_number, any_meta('rank')) FROM #postings",
+              "SELECT coalesce(cost_date, entry_meta('ref')) FROM #postings"]:
+        res.case(q)
+        try:
+            cur = lc.execute(q)
+            rows2 = cur.fetchall()
+        except beanquery.ProgrammingError:
+            continue
+        for j, d in enumerate(cur.description):
+            bad = [r[j] for r in rows2 if not conforms(r[j], d.datatype)]
+            if bad:
+                res.violation('h04:coalesce-dtype:typed-then-untyped', 'coalesce announces a datatype every value conforms to', {'query': q}, f'{type(bad[0]).__name__}: {bad[0]!r}', d.datatype.__name__)
     # arithmetic with intervals
     for q in ["SELECT interval('1 day') - interval('2 days') FROM #t LIMIT 1", "SELECT t - interval('1 month') FROM #t LIMIT 1", "SELECT interval('1 day') + t FROM #t LIMIT 1",
               "SELECT interval('1 day') - t FROM #t LIMIT 1", "SELECT interval('1 month') + interval('1 day') FROM #t LIMIT 1"]:
